@@ -105,7 +105,14 @@ CHECKS.update({
             "Trusted: pharmpy's own __eq__ as the equality the property is stated in; JSON-compatible read modulo tuple==list; categories with non-string keys are outside the documented type and not generated.", "DESIGN.md §3 C12"),
 })
 
-READY = ["C12", "C15", "C01", "C03", "C04", "C06", "C07", "C08", "C05", "C10", "C11", "C13", "C14", "C17", "C18", "C19", "C20"]
+CHECKS.update({
+    "C09": ("exploration",
+            "intervention oracle: the original model executed by vp.ir_eval with the changed quantity replaced, at its last assignment, by the documented formula (vp/docs_frozen.py, transcribed from docstrings and docs/modeling.rst, no pharmpy import) vs the model returned by the real extension function, at sampled points; neutrality at the reference point, documented initial estimates / bounds, detectors vs numeric classification, removal restoring the original",
+            "16 kinds of extensions (covariate effects of every type and operation, allometry, add_iiv / add_pk_iiv / add_iov templates, eta transformations, every error-model setter with its options, BLQ m3/m4, absorption / transit / lag-time setters) are applied with drawn options to pheno variants and generated ADVAN models with generated covariate columns (skewed, time-varying, categorical, occasion); the changed quantity, everything downstream (vector field, F, Y) and everything unrelated are compared at 4-6 points per case in 50-digit arithmetic.",
+            "Trusted: vp/docs_frozen.py as the reading of the documentation (where the docs leave two readings, e.g. median of records vs of per-individual medians, both are accepted and counted); dataset statistics by numpy.", "DESIGN.md §3 C09"),
+})
+
+READY = ["C09", "C12", "C15", "C01", "C03", "C04", "C06", "C07", "C08", "C05", "C10", "C11", "C13", "C14", "C17", "C18", "C19", "C20"]
 
 NOT_BUILT = "check not built yet in this session (design in DESIGN.md); not claimed"
 
